@@ -324,6 +324,15 @@ def _run_point(case, ctx):
         ll += [ls[-1] * 1.1, ls[-1] * 0.9]
         bb += [1, 1]
     iso = pygaps.PointIsotherm(pressure=pp, loading=ll, branch=[bool(b) for b in bb], material="verif-c11p", adsorbate=ads_name, temperature=T, **units)
+    if case["seed"] % 3 == 1:
+        # the isotherm has been read with a smoother interpolant before (a plot, a report): the integral is that of the
+        # piecewise-linear interpolant whatever came first
+        try:
+            with numpy.errstate(all="ignore"):
+                iso.loading_at(float((ps[0] + ps[-1]) / 2), interpolation_type=["cubic", "quadratic", "nearest"][case["seed"] % 9 // 3])
+            ctx.count("point_histories", "read-with-another-interpolant-first")
+        except Exception:
+            ctx.count("point_histories", "other-interpolant-unavailable")
     from pgverif.core import _h
     dg = _h([ps, ls])
     k = r.randrange(n - 1)
